@@ -1,8 +1,677 @@
-(** Proofs about the enumeration codec model [EnumModel]. *)
+(** Proofs about the enumeration codec model [EnumModel]: round trips, idempotence,
+    validity of every accepted encoding, rejection of every invalid input.
+    String order: [EnumOrder]; argsort / searchsorted: [EnumSearch]. *)
 From Coq Require Import String Ascii ZArith List Bool Lia Permutation.
-From Verif Require Import Base EnumModel.
+From Verif Require Import Base EnumModel EnumOrder EnumSearch.
 Import ListNotations.
 Open Scope Z_scope.
 
 Lemma encode_encoded e a : encode e (Encoded a) = Ok a.
 Proof. reflexivity. Qed.
+
+(** ** Generic list lemmas *)
+
+Lemma all_of_length {A} (f : elem -> option A) l : forall r,
+  all_of f l = Some r -> length r = length l.
+Proof.
+  induction l as [|x l IH]; intros r H; cbn in H.
+  - inversion H. reflexivity.
+  - destruct (f x); [|discriminate]. destruct (all_of f l); [|discriminate].
+    inversion H. cbn. f_equal. apply IH. reflexivity.
+Qed.
+
+Lemma all_of_in {A} (f : elem -> option A) l : forall r y,
+  all_of f l = Some r -> In y l -> exists a, f y = Some a /\ In a r.
+Proof.
+  induction l as [|x l IH]; intros r y H Hy; [contradiction|]. cbn in H.
+  destruct (f x) as [a|] eqn:E; [|discriminate].
+  destruct (all_of f l) as [r'|]; [|discriminate]. inversion H; subst.
+  destruct Hy as [->|Hy].
+  - exists a. split; [exact E|left; reflexivity].
+  - destruct (IH r' y eq_refl Hy) as [b [H1 H2]]. exists b. split; [exact H1|right; exact H2].
+Qed.
+
+Lemma all_of_in_inv {A} (f : elem -> option A) l : forall r a,
+  all_of f l = Some r -> In a r -> exists y, In y l /\ f y = Some a.
+Proof.
+  induction l as [|x l IH]; intros r a H Ha; cbn in H.
+  - inversion H; subst. contradiction.
+  - destruct (f x) as [b|] eqn:E; [|discriminate].
+    destruct (all_of f l) as [r'|]; [|discriminate]. inversion H; subst.
+    destruct Ha as [->|Ha].
+    + exists x. split; [left; reflexivity|exact E].
+    + destruct (IH r' a eq_refl Ha) as [y [H1 H2]]. exists y. split; [right; exact H1|exact H2].
+Qed.
+
+Lemma all_of_none {A} (f : elem -> option A) l y :
+  In y l -> f y = None -> all_of f l = None.
+Proof.
+  intros Hy Hf. destruct (all_of f l) as [r|] eqn:E; [|reflexivity].
+  destruct (all_of_in f l r y E Hy) as [a [H _]]. congruence.
+Qed.
+
+Lemma mapM_length {A B} (f : A -> res B) l : forall r, mapM f l = Ok r -> length r = length l.
+Proof.
+  induction l as [|x l IH]; intros r H; cbn in H.
+  - inversion H. reflexivity.
+  - destruct (f x); [|discriminate]. destruct (mapM f l); [|discriminate].
+    inversion H. cbn. f_equal. apply IH. reflexivity.
+Qed.
+
+Lemma mapM_ok_map {A B} (f : A -> res B) (g : A -> B) l :
+  (forall x, In x l -> f x = Ok (g x)) -> mapM f l = Ok (map g l).
+Proof.
+  induction l as [|x l IH]; intros H; cbn; [reflexivity|].
+  rewrite (H x (or_introl eq_refl)). rewrite IH; [reflexivity|].
+  intros y Hy. apply H. right. exact Hy.
+Qed.
+
+Lemma mapM_Forall2 {A B} (f : A -> res B) (R : A -> B -> Prop) l :
+  (forall x, In x l -> exists y, f x = Ok y /\ R x y) ->
+  exists r, mapM f l = Ok r /\ Forall2 R l r.
+Proof.
+  induction l as [|x l IH]; intros H; cbn.
+  - exists []. split; [reflexivity|constructor].
+  - destruct (H x (or_introl eq_refl)) as [y [Hy Ry]]. rewrite Hy.
+    destruct IH as [r [Hr Fr]]. { intros z Hz. apply H. right. exact Hz. }
+    rewrite Hr. exists (y :: r). split; [reflexivity|constructor; assumption].
+Qed.
+
+Lemma mapM_in {A B} (f : A -> res B) l : forall r y,
+  mapM f l = Ok r -> In y r -> exists x, In x l /\ f x = Ok y.
+Proof.
+  induction l as [|x l IH]; intros r y H Hy; cbn in H.
+  - inversion H; subst. contradiction.
+  - destruct (f x) as [b|] eqn:E; [|discriminate].
+    destruct (mapM f l) as [r'|]; [|discriminate]. inversion H; subst.
+    destruct Hy as [->|Hy].
+    + exists x. split; [left; reflexivity|exact E].
+    + destruct (IH r' y eq_refl Hy) as [z [H1 H2]]. exists z. split; [right; exact H1|exact H2].
+Qed.
+
+Lemma mapM_err {A B} (f : A -> res B) l k :
+  mapM f l = Err k -> exists x, In x l /\ f x = Err k.
+Proof.
+  induction l as [|x l IH]; intros H; cbn in H; [discriminate|].
+  destruct (f x) as [b|k'] eqn:E.
+  - destruct (mapM f l) as [r'|k']; [discriminate|]. inversion H; subst.
+    destruct (IH eq_refl) as [z [H1 H2]]. exists z. split; [right; exact H1|exact H2].
+  - inversion H; subst. exists x. split; [left; reflexivity|exact E].
+Qed.
+
+Lemma filter_all {A} (p : A -> bool) l : (forall x, In x l -> p x = true) -> filter p l = l.
+Proof.
+  induction l as [|x l IH]; intros H; cbn; [reflexivity|].
+  rewrite (H x (or_introl eq_refl)). f_equal. apply IH. intros y Hy. apply H. right. exact Hy.
+Qed.
+
+Lemma filter_length_le' {A} (p : A -> bool) l : (length (filter p l) <= length l)%nat.
+Proof. induction l as [|x l IH]; cbn; [lia|]. destruct (p x); cbn; lia. Qed.
+
+Lemma filter_length_lt {A} (p : A -> bool) l x :
+  In x l -> p x = false -> (length (filter p l) < length l)%nat.
+Proof.
+  induction l as [|y l IH]; intros Hx Hp; [contradiction|]. cbn.
+  destruct Hx as [->|Hx].
+  - rewrite Hp. pose proof (filter_length_le' p l). lia.
+  - specialize (IH Hx Hp). destruct (p y); cbn; lia.
+Qed.
+
+Lemma F2_length {A B} (R : A -> B -> Prop) l r : Forall2 R l r -> length l = length r.
+Proof. induction 1; cbn; congruence. Qed.
+
+Lemma F2_in_r {A B} (R : A -> B -> Prop) l r y :
+  Forall2 R l r -> In y r -> exists x, In x l /\ R x y.
+Proof.
+  induction 1 as [|a b l r Hab _ IH]; intros Hy; [contradiction|].
+  destruct Hy as [->|Hy].
+  - exists a. split; [left; reflexivity|exact Hab].
+  - destruct (IH Hy) as [x [H1 H2]]. exists x. split; [right; exact H1|exact H2].
+Qed.
+
+Lemma nth_error_seq s n : forall k, (k < n)%nat -> nth_error (seq s n) k = Some (s + k)%nat.
+Proof.
+  revert s. induction n as [|n IH]; intros s k H; [lia|]. destruct k as [|k]; cbn.
+  - f_equal. lia.
+  - rewrite IH by lia. f_equal. lia.
+Qed.
+
+(** ** finish: the size comparison *)
+
+Lemma finish_ok len idx : length idx = len -> finish len idx = Ok idx.
+Proof. intros <-. unfold finish. rewrite Nat.eqb_refl. reflexivity. Qed.
+
+Lemma finish_err len idx : length idx <> len -> finish len idx = Err EIndex.
+Proof. intro H. unfold finish. apply Nat.eqb_neq in H. rewrite H. reflexivity. Qed.
+
+Lemma finish_inv len idx r : finish len idx = Ok r -> r = idx /\ length idx = len.
+Proof.
+  unfold finish. destruct (Nat.eqb (length idx) len) eqn:E; [|discriminate].
+  apply Nat.eqb_eq in E. intro H. inversion H; subst. auto.
+Qed.
+
+(** ** Elements of the three kinds exclude one another *)
+
+Lemma strs_not_ints l ss : all_strs l = Some ss -> l <> [] -> all_ints l = None.
+Proof.
+  destruct l as [|x l]; [congruence|]. intros H _. unfold all_strs, all_ints in *. cbn in *.
+  destruct x; cbn in *; try discriminate. reflexivity.
+Qed.
+
+Lemma enums_not_ints l ms : all_enums l = Some ms -> l <> [] -> all_ints l = None.
+Proof.
+  destruct l as [|x l]; [congruence|]. intros H _. unfold all_enums, all_ints in *. cbn in *.
+  destruct x; cbn in *; try discriminate. reflexivity.
+Qed.
+
+Lemma enums_not_strs l ms : all_enums l = Some ms -> l <> [] -> all_strs l = None.
+Proof.
+  destruct l as [|x l]; [congruence|]. intros H _. unfold all_enums, all_strs in *. cbn in *.
+  destruct x; cbn in *; try discriminate. reflexivity.
+Qed.
+
+Lemma all_enums_mem l ms m : all_enums l = Some ms -> In m ms -> In (EMem m) l.
+Proof.
+  intros H Hm. destruct (all_of_in_inv _ _ _ _ H Hm) as [y [Hy E]].
+  destruct y; cbn in E; try discriminate. inversion E; subst. exact Hy.
+Qed.
+
+Lemma len0 {A} (l : list A) : Nat.eqb (length l) 0 = true -> l = [].
+Proof. destruct l; [reflexivity|discriminate]. Qed.
+
+(** ** What [encode] computes on each kind of input *)
+
+Lemma encode_ints e x l : as_ints x = Some l ->
+  encode e x = rmap (mkArr (Some e)) (finish (length l) (int_to_index e l)).
+Proof.
+  destruct x as [a|l0|l0|l0|n|l0]; cbn [as_ints]; intro H; try discriminate.
+  - inversion H; subst. cbn [encode input_len].
+    destruct (Nat.eqb (length l) 0) eqn:E; [|reflexivity].
+    apply len0 in E. subst. reflexivity.
+  - cbn [encode input_len]. destruct (Nat.eqb (length l0) 0) eqn:E.
+    + apply len0 in E. subst. cbn in H. inversion H. reflexivity.
+    + unfold encode_array_like. rewrite H. rewrite (all_of_length _ _ _ H). reflexivity.
+Qed.
+
+Lemma encode_names e x l : as_names x = Some l ->
+  encode e x = rmap (mkArr (Some e)) (let* idx := str_to_index e l in finish (length l) idx).
+Proof.
+  destruct x as [a|l0|l0|l0|n|l0]; cbn [as_names]; intro H; try discriminate.
+  - inversion H; subst. cbn [encode input_len].
+    destruct (Nat.eqb (length l) 0) eqn:E; [|reflexivity].
+    apply len0 in E. subst. reflexivity.
+  - cbn [encode input_len]. destruct (Nat.eqb (length l0) 0) eqn:E.
+    + apply len0 in E. subst. cbn in H. inversion H. reflexivity.
+    + unfold encode_array_like.
+      rewrite (strs_not_ints _ _ H) by (intros ->; discriminate).
+      rewrite H. rewrite (all_of_length _ _ _ H). reflexivity.
+Qed.
+
+Lemma encode_members e x ms : as_members x = Some ms ->
+  encode e x = rmap (mkArr (Some e))
+                 (if forallb (same_class e) ms then finish (length ms) (enum_to_index ms)
+                  else Err EType).
+Proof.
+  destruct x as [a|l0|l0|l0|n|l0]; cbn [as_members]; intro H; try discriminate.
+  - cbn [encode input_len]. destruct (Nat.eqb (length l0) 0) eqn:E.
+    + apply len0 in E. subst. cbn in H. inversion H. reflexivity.
+    + cbn [encode_array]. rewrite H. rewrite (all_of_length _ _ _ H). reflexivity.
+  - cbn [encode input_len]. destruct (Nat.eqb (length l0) 0) eqn:E.
+    + apply len0 in E. subst. cbn in H. inversion H. reflexivity.
+    + unfold encode_array_like.
+      rewrite (enums_not_ints _ _ H) by (intros ->; discriminate).
+      rewrite (enums_not_strs _ _ H) by (intros ->; discriminate).
+      rewrite H. rewrite (all_of_length _ _ _ H). reflexivity.
+Qed.
+
+(** ** The helpers of _utils.py *)
+
+Lemma int_to_index_valid e l : (forall i, In i l -> valid_index e i) -> int_to_index e l = l.
+Proof.
+  intro H. apply filter_all. intros i Hi. specialize (H i Hi). unfold valid_index in H.
+  apply andb_true_intro. split; [apply Z.leb_le|apply Z.ltb_lt]; lia.
+Qed.
+
+Lemma int_to_index_range e l i : In i (int_to_index e l) -> valid_index e i.
+Proof.
+  unfold int_to_index. rewrite filter_In. intros [_ H]. apply andb_prop in H.
+  destruct H as [H1 H2]. apply Z.leb_le in H1. apply Z.ltb_lt in H2. split; assumption.
+Qed.
+
+Lemma int_to_index_drops e l i : In i l -> (i < 0 \/ size e <= i) ->
+  (length (int_to_index e l) < length l)%nat.
+Proof.
+  intros Hi Hb. apply (filter_length_lt _ _ i Hi).
+  destruct (0 <=? i) eqn:E1; [|reflexivity]. destruct (i <? size e) eqn:E2; [|reflexivity].
+  apply Z.leb_le in E1. apply Z.ltb_lt in E2. lia.
+Qed.
+
+Lemma isin_In nm s : isin nm s = true <-> In s nm.
+Proof.
+  unfold isin. rewrite existsb_exists. split.
+  - intros [t [Ht E]]. apply String.eqb_eq in E. subst. exact Ht.
+  - intro H. exists s. split; [exact H|apply String.eqb_refl].
+Qed.
+
+Lemma isin_not_In nm s : ~ In s nm -> isin nm s = false.
+Proof.
+  intro H. destruct (isin nm s) eqn:E; [|reflexivity]. apply isin_In in E. contradiction.
+Qed.
+
+(** names are found at their declaration index *)
+Lemma str_to_index_valid e l :
+  NoDup (names e) -> (forall s, In s l -> In s (names e)) ->
+  exists idx, str_to_index e l = Ok idx /\
+    Forall2 (fun s z => 0 <= z /\ nth_error (names e) (Z.to_nat z) = Some s) l idx.
+Proof.
+  intros Hnd Hl. unfold str_to_index.
+  rewrite filter_all by (intros s Hs; apply isin_In; auto).
+  apply mapM_Forall2. intros s Hs.
+  destruct (In_nth_error _ _ (Hl s Hs)) as [i Hi].
+  exists (Z.of_nat i). split.
+  - apply (lookup_member (names e) (argsort (names e)) (argsort_perm _) (argsort_sorts _) i s Hnd Hi).
+  - split; [lia|]. rewrite Nat2Z.id. exact Hi.
+Qed.
+
+Lemma str_to_index_range e l idx z : str_to_index e l = Ok idx -> In z idx -> valid_index e z.
+Proof.
+  unfold str_to_index. intros H Hz. destruct (mapM_in _ _ _ _ H Hz) as [s [_ Hs]].
+  apply (lookup_range (names e) (argsort (names e)) (argsort_perm _) (argsort_sorts _)) in Hs.
+  exact Hs.
+Qed.
+
+Lemma str_to_index_length e l idx : str_to_index e l = Ok idx ->
+  length idx = length (filter (isin (names e)) l).
+Proof. unfold str_to_index. apply mapM_length. Qed.
+
+Lemma str_to_index_err e l k : str_to_index e l = Err k -> k = EIndex.
+Proof.
+  unfold str_to_index. intro H. destruct (mapM_err _ _ _ H) as [s [_ Hs]].
+  apply (lookup_err (names e) (argsort (names e)) (argsort_perm _) (argsort_sorts _)) in Hs.
+  exact Hs.
+Qed.
+
+(** the filter-then-compare-sizes scheme: the result of [_str_to_index] is as long as its
+    input exactly when every name is a member *)
+Lemma str_to_index_detects e l idx : str_to_index e l = Ok idx ->
+  (length idx = length l <-> forall s, In s l -> In s (names e)).
+Proof.
+  intro H. rewrite (str_to_index_length _ _ _ H). split.
+  - intros Hlen s Hs. destruct (isin (names e) s) eqn:E; [apply isin_In; exact E|].
+    pose proof (filter_length_lt _ _ _ Hs E). lia.
+  - intro Hl. rewrite filter_all; [reflexivity|]. intros s Hs. apply isin_In. auto.
+Qed.
+
+(** ** decode *)
+
+Lemma np_index_ok {A} (t : list A) i a :
+  0 <= i -> nth_error t (Z.to_nat i) = Some a -> np_index t i = Ok a.
+Proof.
+  intros Hi Hn. unfold np_index.
+  assert (Hl : (Z.to_nat i < length t)%nat) by (apply nth_error_Some; congruence).
+  destruct (i <? 0) eqn:E; [apply Z.ltb_lt in E; lia|].
+  replace ((0 <=? i) && (i <? Z.of_nat (length t))) with true.
+  - rewrite Hn. reflexivity.
+  - symmetry. apply andb_true_intro. split; [apply Z.leb_le|apply Z.ltb_lt]; lia.
+Qed.
+
+Lemma nth_error_members e k : (k < length (names e))%nat ->
+  nth_error (members e) k = Some (eid e, Z.of_nat k).
+Proof.
+  intro H. unfold members. apply map_nth_error with (f := fun i => (eid e, Z.of_nat i)).
+  rewrite nth_error_seq by exact H. reflexivity.
+Qed.
+
+Lemma np_index_members e i : valid_index e i -> np_index (members e) i = Ok (eid e, i).
+Proof.
+  unfold valid_index, size. intro H. apply np_index_ok; [lia|].
+  rewrite nth_error_members by lia. rewrite Z2Nat.id by lia. reflexivity.
+Qed.
+
+Lemma decode_valid e l : (forall i, In i l -> valid_index e i) ->
+  decode (mkArr (Some e) l) = Ok (map (fun i => (eid e, i)) l).
+Proof.
+  intro H. unfold decode. cbn [possible_values indices].
+  apply mapM_ok_map. intros i Hi. apply np_index_members. auto.
+Qed.
+
+Lemma decode_to_str_valid e l : (forall i, In i l -> valid_index e i) ->
+  exists ns, decode_to_str (mkArr (Some e) l) = Ok ns /\
+    Forall2 (fun i s => nth_error (names e) (Z.to_nat i) = Some s) l ns.
+Proof.
+  intro H. unfold decode_to_str. cbn [possible_values indices].
+  apply mapM_Forall2. intros i Hi. specialize (H i Hi). unfold valid_index, size in H.
+  destruct (nth_error (names e) (Z.to_nat i)) as [s|] eqn:E.
+  - exists s. split; [|reflexivity]. apply np_index_ok; [lia|exact E].
+  - apply nth_error_None in E. lia.
+Qed.
+
+Lemma decode_to_str_names e l idx :
+  Forall2 (fun s z => 0 <= z /\ nth_error (names e) (Z.to_nat z) = Some s) l idx ->
+  decode_to_str (mkArr (Some e) idx) = Ok l.
+Proof.
+  unfold decode_to_str. cbn [possible_values indices].
+  induction 1 as [|s z l idx [Hz Hs] _ IH]; cbn [mapM]; [reflexivity|].
+  rewrite (np_index_ok _ _ _ Hz Hs). rewrite IH. reflexivity.
+Qed.
+
+(** ** Round trips *)
+
+Lemma names_of_members e l idx :
+  Forall2 (fun s z => 0 <= z /\ nth_error (names e) (Z.to_nat z) = Some s) l idx ->
+  Forall2 (fun s m => member_name e m = Some s) l (map (fun i => (eid e, i)) idx).
+Proof.
+  induction 1 as [|s z l idx [Hz Hs] _ IH]; cbn [map]; constructor; [|exact IH].
+  unfold member_name. cbn [fst snd]. rewrite Z.eqb_refl.
+  replace (0 <=? z) with true by (symmetry; apply Z.leb_le; exact Hz). exact Hs.
+Qed.
+
+Theorem decode_encode_indices_lemma : forall e x l,
+  as_ints x = Some l -> (forall i, In i l -> valid_index e i) ->
+  exists a ns, encode e x = Ok a /\ possible_values a = Some e /\ indices a = l /\
+    decode a = Ok (map (fun i => (eid e, i)) l) /\
+    decode_to_str a = Ok ns /\
+    Forall2 (fun i s => nth_error (names e) (Z.to_nat i) = Some s) l ns.
+Proof.
+  intros e x l Hx Hl. rewrite (encode_ints e x l Hx).
+  rewrite (int_to_index_valid e l Hl). rewrite finish_ok by reflexivity. cbn [rmap].
+  destruct (decode_to_str_valid e l Hl) as [ns [H1 H2]].
+  exists (mkArr (Some e) l), ns. repeat split; auto. apply decode_valid. exact Hl.
+Qed.
+
+Theorem decode_encode_names_lemma : forall e x l,
+  NoDup (names e) -> as_names x = Some l -> (forall s, In s l -> In s (names e)) ->
+  exists a ms, encode e x = Ok a /\ possible_values a = Some e /\
+    decode_to_str a = Ok l /\ decode a = Ok ms /\
+    Forall2 (fun s m => member_name e m = Some s) l ms.
+Proof.
+  intros e x l Hnd Hx Hl. rewrite (encode_names e x l Hx).
+  destruct (str_to_index_valid e l Hnd Hl) as [idx [Hi F]]. rewrite Hi. cbn [bind].
+  rewrite finish_ok by (symmetry; eapply F2_length; eauto). cbn [rmap].
+  exists (mkArr (Some e) idx), (map (fun i => (eid e, i)) idx).
+  split; [reflexivity|]. split; [reflexivity|]. split; [apply decode_to_str_names; exact F|].
+  split.
+  - apply decode_valid. intros z Hz. unfold valid_index, size.
+    destruct (F2_in_r _ _ _ _ F Hz) as [s [_ [H0 Hn]]] .
+    assert ((Z.to_nat z < length (names e))%nat) by (apply nth_error_Some; congruence). lia.
+  - apply names_of_members. exact F.
+Qed.
+
+Theorem decode_encode_members_lemma : forall e x ms,
+  as_members x = Some ms -> (forall m, In m ms -> fst m = eid e /\ valid_index e (snd m)) ->
+  exists a ns, encode e x = Ok a /\ possible_values a = Some e /\ decode a = Ok ms /\
+    decode_to_str a = Ok ns /\ Forall2 (fun m s => member_name e m = Some s) ms ns.
+Proof.
+  intros e x ms Hx Hm. rewrite (encode_members e x ms Hx).
+  replace (forallb (same_class e) ms) with true.
+  2:{ symmetry. apply forallb_forall. intros m H. unfold same_class. apply Z.eqb_eq.
+      apply (Hm m H). }
+  unfold enum_to_index. rewrite finish_ok by apply map_length. cbn [rmap].
+  assert (Hv : forall i, In i (map snd ms) -> valid_index e i).
+  { intros i Hi. apply in_map_iff in Hi. destruct Hi as [m [<- Hi]]. apply (Hm m Hi). }
+  destruct (decode_to_str_valid e (map snd ms) Hv) as [ns [H1 H2]].
+  exists (mkArr (Some e) (map snd ms)), ns.
+  split; [reflexivity|]. split; [reflexivity|]. split; [|split; [exact H1|]].
+  - rewrite (decode_valid e _ Hv). f_equal. rewrite map_map.
+    rewrite <- (map_id ms) at 2. apply map_ext_in. intros [c i] Hc. cbn [snd].
+    destruct (Hm _ Hc) as [Hf _]. cbn [fst] in Hf. subst c. reflexivity.
+  - clear H1 Hv Hx. revert ns H2. induction ms as [|m ms IH]; intros ns H2; cbn [map] in H2;
+      inversion H2; subst; constructor.
+    + destruct (Hm m (or_introl eq_refl)) as [Hf [Hv0 _]].
+      unfold member_name. rewrite Hf, Z.eqb_refl.
+      replace (0 <=? snd m) with true by (symmetry; apply Z.leb_le; exact Hv0). assumption.
+    + apply IH; [|assumption]. intros m' H'. apply Hm. right. exact H'.
+Qed.
+
+Theorem encode_idempotent_lemma : forall e e' x a,
+  encode e x = Ok a -> encode e' (Encoded a) = Ok a.
+Proof. intros. reflexivity. Qed.
+
+(** ** Every accepted encoding holds indices of members only *)
+
+Definition core (e : enum) (x : input) : res (list Z) :=
+  match x with Seq l => encode_array_like e l | _ => encode_array e x end.
+
+Lemma encode_inv e x a : (forall b, x <> Encoded b) -> encode e x = Ok a ->
+  possible_values a = Some e /\
+  ((input_len x = 0%nat /\ indices a = []) \/
+   (input_len x <> 0%nat /\ core e x = Ok (indices a))).
+Proof.
+  intros Hx H.
+  assert (H' : rmap (mkArr (Some e))
+            (if Nat.eqb (input_len x) 0 then Ok [] else core e x) = Ok a).
+  { destruct x; try exact H. exfalso. eapply Hx. reflexivity. }
+  clear H. destruct (Nat.eqb (input_len x) 0) eqn:E.
+  - apply Nat.eqb_eq in E. cbn in H'. inversion H'; subst. cbn. auto.
+  - apply Nat.eqb_neq in E. destruct (core e x) as [idx|k]; cbn in H'; [|discriminate].
+    inversion H'; subst. cbn. auto.
+Qed.
+
+Lemma members_branch_valid e l ms idx :
+  all_enums l = Some ms ->
+  (if forallb (same_class e) ms then finish (length l) (enum_to_index ms) else Err EType) = Ok idx ->
+  (forall m, In (EMem m) l -> fst m = eid e -> valid_index e (snd m)) ->
+  length idx = length l /\ forall i, In i idx -> valid_index e i.
+Proof.
+  intros Hms H Hwf. destruct (forallb (same_class e) ms) eqn:E; [|discriminate].
+  apply finish_inv in H. destruct H as [-> Hlen]. split; [exact Hlen|].
+  intros i Hi. unfold enum_to_index in Hi. apply in_map_iff in Hi. destruct Hi as [m [<- Hm]].
+  apply Hwf; [eapply all_enums_mem; eauto|].
+  rewrite forallb_forall in E. specialize (E m Hm). unfold same_class in E.
+  apply Z.eqb_eq. exact E.
+Qed.
+
+Lemma str_branch_valid e ss len idx :
+  (let* i := str_to_index e ss in finish len i) = Ok idx ->
+  length idx = len /\ forall i, In i idx -> valid_index e i.
+Proof.
+  destruct (str_to_index e ss) as [i|k] eqn:E; cbn [bind]; [|discriminate].
+  intro H. apply finish_inv in H. destruct H as [-> Hlen]. split; [exact Hlen|].
+  intros z Hz. eapply str_to_index_range; eauto.
+Qed.
+
+Lemma int_branch_valid e zs len idx :
+  finish len (int_to_index e zs) = Ok idx ->
+  length idx = len /\ forall i, In i idx -> valid_index e i.
+Proof.
+  intro H. apply finish_inv in H. destruct H as [-> Hlen]. split; [exact Hlen|].
+  intros i. apply int_to_index_range.
+Qed.
+
+Lemma encode_array_like_valid e l idx :
+  encode_array_like e l = Ok idx ->
+  (forall m, In (EMem m) l -> fst m = eid e -> valid_index e (snd m)) ->
+  length idx = length l /\ forall i, In i idx -> valid_index e i.
+Proof.
+  unfold encode_array_like. intros H Hwf.
+  destruct (all_ints l) as [zs|]; [eapply int_branch_valid; eauto|].
+  destruct (all_strs l) as [ss|]; [eapply str_branch_valid; eauto|].
+  destruct (all_enums l) as [ms|] eqn:E; [|discriminate].
+  eapply members_branch_valid; eauto.
+Qed.
+
+Lemma core_valid e x idx :
+  (forall b, x <> Encoded b) -> wf_members e x -> core e x = Ok idx ->
+  length idx = input_len x /\ forall i, In i idx -> valid_index e i.
+Proof.
+  intros Hx Hwf H. destruct x as [a|l|l|l|n|l]; cbn [core encode_array input_len] in *.
+  - exfalso. eapply Hx. reflexivity.
+  - eapply int_branch_valid; eauto.
+  - eapply str_branch_valid; eauto.
+  - destruct (all_enums l) as [ms|] eqn:E; [|discriminate].
+    eapply members_branch_valid; eauto.
+  - discriminate.
+  - apply encode_array_like_valid; assumption.
+Qed.
+
+Theorem encode_total_valid_lemma : forall e x a,
+  (forall b, x <> Encoded b) -> wf_members e x -> encode e x = Ok a ->
+  possible_values a = Some e /\ length (indices a) = input_len x /\
+  forall i, In i (indices a) -> valid_index e i.
+Proof.
+  intros e x a Hx Hwf H. destruct (encode_inv e x a Hx H) as [Hp [[H0 Hi]|[H0 Hc]]].
+  - split; [exact Hp|]. rewrite Hi, H0. split; [reflexivity|]. intros i [].
+  - split; [exact Hp|]. apply core_valid; assumption.
+Qed.
+
+(** ... hence decodes, to members of this enumeration, one per input element *)
+Theorem encoded_decodes_lemma : forall e x a,
+  (forall b, x <> Encoded b) -> wf_members e x -> encode e x = Ok a ->
+  exists ms ns, decode a = Ok ms /\ decode_to_str a = Ok ns /\
+    length ms = input_len x /\ length ns = input_len x /\
+    forall m, In m ms -> fst m = eid e /\ valid_index e (snd m).
+Proof.
+  intros e x a Hx Hwf H.
+  destruct (encode_total_valid_lemma e x a Hx Hwf H) as [Hp [Hlen Hv]].
+  destruct a as [pv idx]. cbn [possible_values indices] in *. subst pv.
+  destruct (decode_to_str_valid e idx Hv) as [ns [H1 H2]].
+  exists (map (fun i => (eid e, i)) idx), ns.
+  split; [apply decode_valid; exact Hv|]. split; [exact H1|].
+  split; [rewrite map_length; exact Hlen|].
+  split; [rewrite <- (F2_length _ _ _ H2); exact Hlen|].
+  intros m Hm. apply in_map_iff in Hm. destruct Hm as [i [<- Hi]]. cbn. auto.
+Qed.
+
+(** ** Invalid inputs are rejected, class by class *)
+
+Theorem index_out_of_range_rejected_lemma : forall e x l i,
+  as_ints x = Some l -> In i l -> (i < 0 \/ size e <= i) -> encode e x = Err EIndex.
+Proof.
+  intros e x l i Hx Hi Hb. rewrite (encode_ints e x l Hx).
+  rewrite finish_err; [reflexivity|]. pose proof (int_to_index_drops e l i Hi Hb). lia.
+Qed.
+
+Theorem unknown_name_rejected_lemma : forall e x l s,
+  as_names x = Some l -> In s l -> ~ In s (names e) -> encode e x = Err EIndex.
+Proof.
+  intros e x l s Hx Hs Hn. rewrite (encode_names e x l Hx).
+  destruct (str_to_index e l) as [idx|k] eqn:E; cbn [bind].
+  - rewrite finish_err; [reflexivity|]. rewrite (str_to_index_length _ _ _ E).
+    pose proof (filter_length_lt _ _ _ Hs (isin_not_In _ _ Hn)). lia.
+  - apply str_to_index_err in E. subst. reflexivity.
+Qed.
+
+Theorem foreign_member_rejected_lemma : forall e x ms m,
+  as_members x = Some ms -> In m ms -> fst m <> eid e -> encode e x = Err EType.
+Proof.
+  intros e x ms m Hx Hm Hf. rewrite (encode_members e x ms Hx).
+  replace (forallb (same_class e) ms) with false; [reflexivity|].
+  symmetry. destruct (forallb (same_class e) ms) eqn:E; [|reflexivity].
+  rewrite forallb_forall in E. specialize (E m Hm). unfold same_class in E.
+  apply Z.eqb_eq in E. contradiction.
+Qed.
+
+Lemma nonempty_len {A} (l : list A) y : In y l -> Nat.eqb (length l) 0 = false.
+Proof. destruct l; [contradiction|reflexivity]. Qed.
+
+(** an element that is no int, no str and no member (float, bytes, None, ...) anywhere,
+    or an array of another dtype *)
+Theorem unsupported_type_rejected_lemma : forall e x,
+  In EOther (input_elems x) \/ (exists n, x = ArrOther (S n)) -> encode e x = Err EType.
+Proof.
+  intros e x [H|[n ->]]; [|reflexivity].
+  destruct x as [a|l|l|l|n|l]; cbn [input_elems] in H; try contradiction;
+    cbn [encode input_len]; rewrite (nonempty_len _ _ H).
+  - cbn [encode_array]. unfold all_enums. rewrite (all_of_none as_enum l EOther H eq_refl). reflexivity.
+  - unfold encode_array_like, all_ints, all_strs, all_enums.
+    rewrite (all_of_none as_int l EOther H eq_refl).
+    rewrite (all_of_none as_str l EOther H eq_refl).
+    rewrite (all_of_none as_enum l EOther H eq_refl). reflexivity.
+Qed.
+
+(** elements of different kinds in one sequence (even when each would be valid alone) *)
+Theorem mixed_kinds_rejected_lemma : forall e l,
+  l <> [] -> all_ints l = None -> all_strs l = None -> all_enums l = None ->
+  encode e (Seq l) = Err EType /\ encode e (ArrObj l) = Err EType.
+Proof.
+  intros e l Hl H1 H2 H3. cbn [encode input_len].
+  replace (Nat.eqb (length l) 0) with false by (destruct l; [congruence|reflexivity]).
+  unfold encode_array_like. cbn [encode_array]. rewrite H1, H2, H3. split; reflexivity.
+Qed.
+
+Lemma members_branch_invalid e l ms y :
+  all_enums l = Some ms -> In y l -> elem_invalid e y ->
+  (if forallb (same_class e) ms then finish (length l) (enum_to_index ms) else Err EType) = Err EType.
+Proof.
+  intros Hms Hy Hinv. destruct (all_of_in _ _ _ _ Hms Hy) as [m [E Hm]].
+  destruct y; cbn in E; try discriminate. inversion E; subst. cbn in Hinv.
+  replace (forallb (same_class e) ms) with false; [reflexivity|].
+  symmetry. destruct (forallb (same_class e) ms) eqn:F; [|reflexivity].
+  rewrite forallb_forall in F. specialize (F m Hm). unfold same_class in F.
+  apply Z.eqb_eq in F. contradiction.
+Qed.
+
+Lemma encode_array_like_invalid e l y :
+  In y l -> elem_invalid e y -> exists k, encode_array_like e l = Err k.
+Proof.
+  intros Hy Hinv. unfold encode_array_like.
+  destruct (all_ints l) as [zs|] eqn:E1.
+  { destruct (all_of_in _ _ _ _ E1 Hy) as [z [Ez Hz]].
+    assert (Hb : z < 0 \/ size e <= z).
+    { destruct y; cbn in Ez; try discriminate; inversion Ez; subst; cbn in Hinv; auto. }
+    exists EIndex. apply finish_err. pose proof (int_to_index_drops e zs z Hz Hb).
+    rewrite <- (all_of_length _ _ _ E1). lia. }
+  destruct (all_strs l) as [ss|] eqn:E2.
+  { destruct (all_of_in _ _ _ _ E2 Hy) as [s [Es Hs]].
+    assert (Hn : ~ In s (names e)).
+    { destruct y; cbn in Es; try discriminate; inversion Es; subst; exact Hinv. }
+    destruct (str_to_index e ss) as [idx|k] eqn:E; cbn [bind]; [|eauto].
+    exists EIndex. apply finish_err. rewrite (str_to_index_length _ _ _ E).
+    pose proof (filter_length_lt _ _ _ Hs (isin_not_In _ _ Hn)).
+    rewrite <- (all_of_length _ _ _ E2). lia. }
+  destruct (all_enums l) as [ms|] eqn:E3; [|eauto].
+  exists EType. eapply members_branch_invalid; eauto.
+Qed.
+
+Theorem invalid_rejected_lemma : forall e x, input_invalid e x -> exists k, encode e x = Err k.
+Proof.
+  intros e x H. destruct x as [a|l|l|l|n|l]; cbn [input_invalid] in H.
+  - contradiction.
+  - destruct H as [i [Hi Hb]]. exists EIndex.
+    apply (index_out_of_range_rejected_lemma e (ArrInt l) l i eq_refl Hi Hb).
+  - destruct H as [s [Hs Hn]]. exists EIndex.
+    apply (unknown_name_rejected_lemma e (ArrStr l) l s eq_refl Hs Hn).
+  - destruct H as [y [Hy Hinv]]. cbn [encode input_len]. rewrite (nonempty_len _ _ Hy).
+    cbn [encode_array]. destruct (all_enums l) as [ms|] eqn:E; [|exists EType; reflexivity].
+    exists EType. rewrite (members_branch_invalid e l ms y E Hy Hinv). reflexivity.
+  - destruct n; [lia|]. exists EType. reflexivity.
+  - destruct H as [y [Hy Hinv]]. cbn [encode input_len]. rewrite (nonempty_len _ _ Hy).
+    destruct (encode_array_like_invalid e l y Hy Hinv) as [k ->]. exists k. reflexivity.
+Qed.
+
+(** ** The str -> index route, for any name list and any sorting permutation *)
+
+Theorem searchsorted_finds_lemma : forall nm sorter,
+  NoDup nm -> Permutation sorter (seq 0 (length nm)) -> sorts nm sorter ->
+  (forall i s, nth_error nm i = Some s -> lookup nm sorter s = Ok (Z.of_nat i)) /\
+  (forall s, ~ In s nm ->
+     exists r, searchsorted nm sorter s = Ok r /\
+       (r = length sorter \/
+        exists j t, nth_error sorter r = Some j /\ nth_error nm j = Some t /\ String.ltb s t = true)).
+Proof.
+  intros nm sorter Hnd Hp Hs. split.
+  - intros i s Hi. apply (lookup_member nm sorter Hp Hs i s Hnd Hi).
+  - intros s Hn. apply (lookup_non_member nm sorter Hp Hs s Hn).
+Qed.
+
+Theorem argsort_sorts_lemma : forall nm,
+  Permutation (argsort nm) (seq 0 (length nm)) /\ sorts nm (argsort nm).
+Proof. intro nm. split; [apply argsort_perm|apply argsort_sorts]. Qed.
+
+(** the model's [_str_to_index] on arbitrary input: the declaration indices of the names that
+    are members, in order; the others are dropped (and [finish] then notices the size) *)
+Theorem str_to_index_spec_lemma : forall e l,
+  NoDup (names e) ->
+  exists idx, str_to_index e l = Ok idx /\
+    Forall2 (fun s z => 0 <= z /\ nth_error (names e) (Z.to_nat z) = Some s)
+            (filter (isin (names e)) l) idx /\
+    (length idx = length l <-> forall s, In s l -> In s (names e)).
+Proof.
+  intros e l Hnd.
+  destruct (str_to_index_valid e (filter (isin (names e)) l) Hnd) as [idx [H F]].
+  { intros s Hs. apply filter_In in Hs. apply isin_In. apply Hs. }
+  assert (H' : str_to_index e l = Ok idx).
+  { unfold str_to_index in *. rewrite filter_all in H; [exact H|].
+    intros s Hs. apply filter_In in Hs. apply Hs. }
+  exists idx. split; [exact H'|]. split; [exact F|]. apply str_to_index_detects. exact H'.
+Qed.
